@@ -130,6 +130,38 @@ def mvDrawTensor [NumOrd α] (mean : List α) (covariance : Matrix α) (source :
 
 end
 
+/-! ### the dimension-name checks of a multivariate tensor draw -/
+
+/-- `Tensor::from` / `Tensor::empty` / `rename` / `expand` reject duplicate dimension names -/
+def namesUnique {ν : Type} [DecidableEq ν] (names : List ν) : Bool := decide names.Nodup
+
+/-- The name-dependent checks `draw_tensor_samples` passes through, in program order, for a mean
+    tensor named `meanName`, a covariance tensor named `(cov0, cov1)` and the requested names
+    `(samples, features)`; the result is the pair of names of the drawn tensor.
+    1. `samples == features ⇒ None`;
+    2. the Cholesky factor is created with the covariance's own shape (`Tensor::empty`), then
+       `rename([samples, features])`;
+    3. `Tensor::empty([(samples, k), (features, N)])`;
+    4. `mean.rename_view([samples])` (one new name: no constraint involving the old name), then
+       `expand_owned([(1, features)])`, whose shape is `[samples, features]`;
+    5. per row `Tensor::from([(samples, N), (features, 1)], …)`, the matrix product (left row name
+       `samples` must differ from right column name `features`, result `[samples, features]`) and the
+       addition with the mean's column view (identical shapes).
+    The mean's own name takes part in no check. -/
+def mvNameChecks {ν : Type} [DecidableEq ν] (meanName cov0 cov1 samples features : ν) :
+    Outcome (Option (List ν)) :=
+  let _ := meanName
+  if samples = features then .ok none
+  else if !namesUnique [cov0, cov1] then .panic .explicit
+  else if !namesUnique [samples, features] then .panic .explicit            -- rename of L
+  else if !namesUnique [samples, features] then .panic .explicit            -- Tensor::empty
+  else if !namesUnique [samples] then .panic .explicit                      -- rename_view
+  else if !namesUnique [samples, features] then .panic .explicit            -- expand_owned
+  else if !namesUnique [samples, features] then .panic .explicit            -- Tensor::from
+  else if samples = features then .panic .explicit                          -- product
+  else if [samples, features] ≠ [samples, features] then .panic .explicit   -- addition
+  else .ok (some [samples, features])
+
 /-! ### fitting a Gaussian to data -/
 
 /-- `Gaussian::approximating` (distributions.rs:150-161): the struct fields are evaluated in
